@@ -303,6 +303,7 @@ def _schema(variant, startdir, grown=None):
     s = cc.Schema()
     s.x = cc.IntField()
     s.y = cc.StringField()
+    s.first.q = cc.IntField()      # an earlier-declared sibling section that the documents never mention
     s.sub.z = cc.IntField()
     s.sub.w = cc.StringField()
     s.ul = cc.ListField()          # untyped containers: their values are stored as parsed
@@ -621,6 +622,7 @@ def _paths(job, ctx):
         ("directory", incdir, "adir", "raise"), ("directory-absolute", None, os.path.join(incdir, "adir"), "raise"),
         ("relative-not-in-startdir", incdir, "cwd.inc", "raise"), ("missing-cwd", None, "ok.inc", "raise"),
         ("wrong-type-int", incdir, 5, "raise"), ("wrong-type-list", incdir, ["ok.inc"], "raise"),
+        ("empty-path", incdir, "", "raise"), ("empty-path-no-startdir", None, "", "raise"),
     ]
     os.chdir(other)
     for where in ("root", "nested"):
@@ -629,6 +631,7 @@ def _paths(job, ctx):
                 continue
             s = cc.Schema()
             s.x = cc.IntField(default=1)
+            s.early.q = cc.IntField()       # a sibling section declared first and absent from the document
             s.sub.x = cc.IntField(default=1)
             kw = {"startdir": sd} if sd else {}
             if where == "root":
